@@ -20,6 +20,7 @@ EXPLANATION = (
     "conflate a missing key with a None value; (e) every write of <job>._id outside __init__ is accompanied by a write "
     "of the id-derived cached state point; (f) _save skips the migration only when old and new id are equal."
     ' (k) Job.move makes sure the destination workspace directory exists before renaming the job directory into it.'
+    ' The roll-back must-pass rule uses typed re-raise edges (a bare raise inside `except OSError` passes by `except DestinationExistsError`); an ENOENT-only fall-through of the re-key handler is accepted (the reference code tolerates it through its enclosing handler). (l) `signac move` is Job.move and nothing else (C04-l).'
 )
 UNDECIDED = "Byte-identical payloads, both jobs unchanged after DestinationExistsError and independence of deep copies are not decided."
 
